@@ -80,7 +80,38 @@ def rule_family(ctx):
               "inverse mapping does not use the same coefficient/position convention", f.where())
 
 
+def rule_symmetry(ctx):
+    """_comb multiplies over min(k, n - k) factors: after step d the running product is C(n, d), so with d <= n/2 it never exceeds
+    the result and the intermediate product is below result * k < 2**63 whenever the result is below 2**53.  Without the reduction
+    C(63, 44) (6.1e15 < 2**53) overflows on the way through C(63, 31) (defect I)."""
+    f = ctx.func(J + '_comb')
+    r = ctx.recon(J + '_comb')
+    loops = [ev for ev in r.events if ev.kind == 'loop_enter']
+    ctx.need(len(loops) == 1, f"{f.qname}: one multiplicative loop expected")
+    it = loops[0].data[0]
+    n_, k_ = ('param', 'n'), ('param', 'k')
+    bound = it[2][-1] if it[0] == 'call' and it[1] == 'range' and it[2] else None
+    # the loop bound is (reduced k) + 1
+    reduced = None
+    if bound is not None and bound[0] == 'bin' and bound[1] == 'Add' and ('const', 1) in (bound[2], bound[3]):
+        reduced = bound[2] if bound[3] == ('const', 1) else bound[3]
+    def is_min(t):
+        if t is None or t[0] != 'call' or t[1] not in ('min', 'numpy.minimum') or len(t[2]) != 2:
+            return False
+        a, b = t[2]
+        diff = ('bin', 'Sub', n_, k_)
+        return {a, b} == {k_, diff}
+    ok = is_min(reduced)
+    # and the reduction is only reached with k <= n
+    guard = mkcmp('Gt', k_, n_)
+    after_guard = any((guard, False) in atoms(path(ev) or []) for ev in loops)
+    ctx.check(ok and after_guard, 'R11.4/symmetric-product', f.construct('loop bound'), "the product runs over min(k, n - k) factors, reached only with k <= n",
+              f"_comb multiplies over {show(reduced) if reduced else show(it)} factors: the running product passes through the central coefficients "
+              f"and overflows int64 for k > n/2 although the result is below 2**53", f.where())
+
+
 def run(ctx):
+    rule_symmetry(ctx)
     rule_exact(ctx)
     rule_tables(ctx)
     rule_family(ctx)
